@@ -28,7 +28,7 @@ Attrs == <<
   [n |-> "healthcheck", top |-> FALSE, p |-> <<"healthcheck">>,
      alts |-> {M2("test", S("curl -f localhost"), "interval", S("10s")), M1("test", Sq2(S("CMD"), S("true"))), M2("interval", S("5s"), "retries", I(3))}],
   [n |-> "environment", top |-> FALSE, p |-> <<"environment">>,
-     alts |-> {Sq2(S("A=1"), S("B=2")), M1("A", S("9")), Sq1(S("A")), Sq2(S("C=3"), S("C=4")), M2("B", Null, "D", S("")) }],
+     alts |-> {L(<<S("A=2"), S("B=1"), S("C=1"), S("B=2")>>), Sq2(S("A=1"), S("B=2")), M1("A", S("9")), Sq1(S("A")), Sq2(S("C=3"), S("C=4")), M2("B", Null, "D", S("")) }],
   [n |-> "labels", top |-> FALSE, p |-> <<"labels">>, alts |-> {Sq1(S("l1=x")), M2("l1", S("y"), "l2", S("z")), Sq2(S("l2=a"), S("l3"))}],
   [n |-> "build.args", top |-> FALSE, p |-> <<"build", "args">>, alts |-> {Sq1(S("V=1")), M2("V", S("2"), "W", S("3")), Sq1(S("W"))}],
   [n |-> "sysctls", top |-> FALSE, p |-> <<"sysctls">>, alts |-> {M1("net.core.somaxconn", S("1024")), Sq1(S("net.core.somaxconn=2048")), M1("net.ipv4.ip_forward", S("1"))}],
